@@ -123,6 +123,17 @@ func (s lockState) apply(k lockKey, dh, dd int8) {
 	s[k] = n
 }
 
+// mayReleased: on some path more releases than acquisitions were executed
+// (a lock owned by the caller was unlocked here).
+func (s lockState) mayReleased(k lockKey) bool {
+	for x := range s[k] {
+		if x.h < 0 {
+			return true
+		}
+	}
+	return false
+}
+
 // mustHeld: on every path the lock is currently held (h >= 1).
 func (s lockState) mustHeld(k lockKey) bool {
 	m, ok := s[k]
@@ -705,6 +716,10 @@ func (la *lockAnalysis) heldAt(fn *ssa.Function, instr ssa.Instruction, guard *t
 	}
 	if st.mayHeld(lockKey{guard, 'W'}) || st.mayHeld(lockKey{guard, 'R'}) {
 		return false, "lock held on some paths only in " + funcName(fn)
+	}
+	// a lock taken by the caller may have been released in this function
+	if st.mayReleased(lockKey{guard, 'W'}) || st.mayReleased(lockKey{guard, 'R'}) {
+		return false, "the caller's lock has been released on some path in " + funcName(fn)
 	}
 	// not held here: obligation moves to the callers
 	if depth > 8 {
